@@ -280,3 +280,27 @@ def ring_diene_ct(mol, only=None):
     if only is not None:
         return only in out
     return out
+
+
+def ct_implied_by_neighbours(mol):
+    """unlabelled stereogenic double bonds / even cumulenes both of whose ends carry a single bond that a *labelled* neighbouring
+    system needs a direction mark on (C/C=C/C=CC=C/C with the middle bond left open, a cumulene between two labelled double bonds).
+    SMILES has no spelling that marks the neighbours and leaves such a bond unspecified: a reader gives it a label. Returns the set
+    of such systems (frozenset of terminals); limitation of the notation, not of a writer"""
+    centers = mol._stereo_cis_trans_centers
+    labelled_terminals = set()
+    open_systems = []
+    for (n, m), env in mol.stereogenic_cis_trans.items():
+        i, j = centers[n]
+        if mol._bonds[i][j].stereo is not None:
+            labelled_terminals.update((n, m))
+        else:
+            open_systems.append(((n, m), env))
+    out = set()
+    for (n, m), env in open_systems:
+        n1, m1, n2, m2 = env
+        at_n = [x for x in (n1, n2) if x is not None]
+        at_m = [x for x in (m1, m2) if x is not None]
+        if any(x in labelled_terminals for x in at_n) and any(x in labelled_terminals for x in at_m):
+            out.add(frozenset((n, m)))
+    return out
